@@ -4,6 +4,10 @@
           validate raised.  Part (i): `conforms` agrees with jsonschema's accept / reject.  Part (ii): the raised record
           satisfies wf_verr, points at the sub-value it names, and process_error of the model yields the observed error
           class and exposed attributes (message: non-emptiness only).
+          A draft-3 `required` record names the parent object as its instance and ends its path with the MISSING key: the
+          instance is then looked up at the path without its last element (inst_path).
+          Draft-3 schemas (generated over keywords that mean the same in draft 3 and in the model's draft) are printed with
+          SRequired3 for the boolean `required` flags of their `properties`.
    CProc: process_error called directly on a hand-built (possibly malformed) ValidationError.
    pmo : the oracle table of patternProperties matching, one row (sorted patterns, key, re.search("|".join(patterns in
          the schema's order), key) is not None) per pattern list of the schema / of a raised record and per object key
@@ -65,6 +69,25 @@ Inductive case :=
 
 Definition is_lib (o : outcome) : bool := match o with Lib _ => true | Raw _ => false end.
 
+(* where the instance of a record sits in the validated value: at the record's absolute path - except for a draft-3
+   `required` record (boolean validator value), whose path ends with the key that is missing from the instance *)
+Definition inst_path (e : verr) (abspath : list pathpart) : list pathpart :=
+  match v_kind e, v_value e with
+  | VRequired, JBool _ => removelast abspath
+  | _, _ => abspath
+  end.
+
+(* ... and the absolute path of such a record ends with the same missing key as its relative path *)
+Definition last_key_ok (e : verr) (abspath : list pathpart) : bool :=
+  match v_kind e, v_value e with
+  | VRequired, JBool _ =>
+      match last_part abspath, last_part (v_path e) with
+      | Some (PKey a), Some (PKey b) => str_eqb a b
+      | _, _ => false
+      end
+  | _, _ => true
+  end.
+
 Definition check (c : case) : bool :=
   match c with
   | CVal v s rxo pmo None => conforms (rx_of rxo) (pm_of pmo) s v
@@ -74,7 +97,8 @@ Definition check (c : case) : bool :=
       (* jsonschema reports a `false` sub-schema (validator None, kind VOther) with an empty path: no path check there *)
       match v_kind e with
       | VOther => true
-      | _ => match json_at v abspath with Some x => json_eqb x (v_inst e) | None => false end
+      | _ => match json_at v (inst_path e abspath) with Some x => json_eqb x (v_inst e) | None => false end &&
+             last_key_ok e abspath
       end &&
       is_lib (process_error e) &&
       obs_match (process_error e) o
